@@ -210,6 +210,36 @@ def rule_samebase(ctx, py):
     ctx.floor(R, 2)
 
 
+def rule_expsum(ctx, py):
+    """C18.EXPSUM -- factors of the same base kind multiply: addunit adds the factor's exponent to the exponent recorded for
+    that kind ('m/s/s' is m.s-2, 'M.L' is mol: the litre and molar families contribute to the space exponent through here)"""
+    R = "C18.EXPSUM"
+    f = py.fn("units.parse_units")
+    inner = [n for n in ast.walk(f) if isinstance(n, ast.FunctionDef) and n.name == "addunit"]
+    ctx.need(len(inner) == 1, R, "parse_units: addunit not found")
+    g = inner[0]
+    ps = pyfe.params(g)
+    ctx.need(len(ps) == 3, R, "addunit: (kind, unit, exponent) parameters not found")
+    fld, su, se = ps
+    st = [n for n in ast.walk(g) if isinstance(n, (ast.Assign, ast.AugAssign)) and
+          isinstance(n.targets[0] if isinstance(n, ast.Assign) else n.target, ast.Subscript) and
+          pyfe.src((n.targets[0] if isinstance(n, ast.Assign) else n.target).value) == "dim"]
+    ctx.need(st, R, "addunit: no store into the exponent table `dim`")
+    for n in st:
+        tg = n.targets[0] if isinstance(n, ast.Assign) else n.target
+        v = pyfe.src(n.value).replace(" ", "")
+        ok = pyfe.src(tg.slice) == fld and (
+            (isinstance(n, ast.AugAssign) and isinstance(n.op, ast.Add) and v == se) or
+            (isinstance(n, ast.Assign) and v in ("dim[%s]+%s" % (fld, se), "%s+dim[%s]" % (se, fld))))
+        ctx.check(ok, R, n, f._qual, pyfe.src(n), "the factor's exponent is added to the one recorded for its base kind",
+                  "the exponent of a base kind is not accumulated over the factors naming it: a unit written with a repeated "
+                  "base ('m/s/s', 'M.L', 'mol/L.L') is read with another dimension")
+    init = [n for n in f.body if isinstance(n, ast.Assign) and pyfe.src(n.targets[0]) == "dim"]
+    okin = len(init) == 1 and isinstance(init[0].value, ast.Dict) and all(pyfe.src(v) == "0" for v in init[0].value.values)
+    ctx.check(okin, R, init[0] if init else f, f._qual, "exponents start at 0", "", "the exponent table does not start at zero")
+    ctx.floor(R, 2)
+
+
 def rule_expsign(ctx, py):
     """C18.EXPSIGN -- '/' inverts exactly the factor it precedes: in the loop that turns each block's exponent text into an
     integer, the sign depends on that block's own separator only (no variable carried from one block to the next), and the
@@ -298,6 +328,7 @@ def rule_blocks(ctx, py):
 def run(ctx):
     py = ctx.py
     rule_samebase(ctx, py)
+    rule_expsum(ctx, py)
     rule_alphabet(ctx, py)
     rule_micro(ctx, py)
     n0 = len(ctx.insts)
